@@ -4,6 +4,7 @@ Equality with the discrete S-transform in every time-frequency cell, the Fourier
 import ast
 
 from ..tyob import *  # noqa
+from ..program import norm_stmt
 from ..tyob import analyse, expect, item, unmodelled_in, concat_pieces
 
 ST = "eqsig.stockwell."
@@ -55,6 +56,11 @@ def run(chk):
                loc=fi.loc(), inconclusive=facts.get("rows") is None)
         chk.ob("R-ST-SIB", c + "{inverse fft}", "inverse FFT of (spectrum rows x Gaussian) along axis 1", facts.get("ifft.axis") == 1 and facts.get("ifft.window") is True,
                derived="axis=%s, window applied: %s" % (facts.get("ifft.axis"), facts.get("ifft.window")), loc=fi.loc())
+        ifc = [n for n in ast.walk(fi.node) if isinstance(n, ast.Call) and ast.unparse(n.func).split(".")[-1] == "ifft" and n.args and
+               isinstance(n.args[0], ast.BinOp)]
+        for n in ifc[:1]:
+            chk.ob("R-ST-SIB", c + "{window product}", "the voice spectrum is MULTIPLIED by the Gaussian window before the inverse FFT",
+                   isinstance(n.args[0].op, ast.Mult), derived=" ".join(ast.unparse(n.args[0]).split()), loc=fi.loc(n), stmt=norm_stmt(n))
         chk.ob("R-ST-SIB", c + "{flip}", "rows are flipped (Nyquist first)", ("flipud",) in sk and sk.index(("flipud",)) > [k for k, s in enumerate(sk) if s[0] == "ifft"][0]
                if any(s[0] == "ifft" for s in sk) else False, derived="%s" % [s[0] for s in sk], loc=fi.loc())
         expect(chk, "R-ST-LIN", c + ".result", r.ret, lin=[R], dtype="complex", shape=(HALF, LinExpr(HALF).scale(2)), kind=K_ARRAY, tags_has=["flip", "gaussian", "conj", "toeplitz"],
@@ -72,6 +78,8 @@ def run(chk):
     c = "eqsig/stockwell.py:itransform"
     unmodelled_in(r, chk, "R-ST-LIN", c)
     expect(chk, "R-ST-LIN", c + ".result", r.ret, lin=[R], dtype="real", kind=K_ARRAY, tags_has=["fft:ifft", "conj", "flip", "real"], loc=r.fi.loc())
+    # every one of the N = 2 * rows reconstructed samples is returned
+    expect(chk, "R-ST-LIN", c + ".result{all samples}", r.ret, shape=(LinExpr("m").scale(2),), loc=r.fi.loc())
     sm = [e for e in r.events("lib-call", q) if e.name == "numpy.sum"]
     ax = sm[0].kwargs.get("axis") if sm else None
     chk.ob("R-ST-LIN", c + "{marginal}", "rows are summed over time (axis=1)", len(sm) == 1 and ax is not None and ax.has_const() and ax.const == 1,
@@ -146,6 +154,19 @@ def run(chk):
             chk.ob("R-ST-AXIS", c + "{frequency axis}", "frequencies (degree -1 in dt) flipped like the rows, indexed by the argmax", okt,
                    derived="%d selection(s) by the argmax" % len(tk), loc=tk[0][2] if tk else r.fi.loc(),
                    inconclusive=(not tk) or any(x.indef for t_ in tk for x in t_[:2]))
+            # the rows of the transform are Nyquist-first (flipped), so the frequency table the argmax indexes must be reversed too: exactly
+            # one reversal between its arithmetic definition and the selection
+            for sc in scopes:
+                sel = [n for n in ast.walk(sc.node) if isinstance(n, ast.Call) and ast.unparse(n.func).split(".")[-1] == "take" and n.args and
+                       isinstance(n.args[0], ast.Name)]
+                for tcall in sel[:1]:
+                    F = tcall.args[0].id
+                    defs = [n for n in ast.walk(sc.node) if isinstance(n, ast.Assign) and len(n.targets) == 1 and isinstance(n.targets[0], ast.Name) and
+                            n.targets[0].id == F]
+                    nflip = sum(1 for d in defs for x in ast.walk(d.value) if isinstance(x, ast.Call) and
+                                ast.unparse(x.func) in ("np.flip", "np.flipud", "numpy.flip", "numpy.flipud"))
+                    chk.ob("R-ST-AXIS", c + "{axis reversed}", "the frequency table is reversed once (rows are Nyquist-first)", nflip % 2 == 1,
+                           derived="%d reversal(s) in the definition of `%s`" % (nflip, F), loc=sc.loc(tcall), stmt=norm_stmt(tcall))
             # the frequency axis itself: arange(1, points+1) / (2 * points * dt), points = number of rows
 
             def unflip(v):
